@@ -3,8 +3,11 @@ package connect
 import (
 	"context"
 	"errors"
+	"io"
 	"time"
 )
+
+func errEOF() error { return io.EOF }
 
 // ---- shared harness environment objects (plain Go, executed symbolically
 // and reused unchanged for native replay) ----
@@ -69,4 +72,140 @@ func bytesEq(a, b []byte) bool {
 		}
 	}
 	return true
+}
+
+// chunkReader delivers data in chunks whose sizes are solver-chosen
+// (1..min(len(p), remaining)); end-of-file arrives together with the last
+// bytes or on a separate call (eofWithLast).
+type chunkReader struct {
+	data        []byte
+	pos         int
+	eofWithLast bool
+	reads       int
+}
+
+func (r *chunkReader) Read(p []byte) (int, error) {
+	r.reads++
+	if r.pos >= len(r.data) {
+		return 0, errEOF()
+	}
+	if len(p) == 0 {
+		return 0, nil
+	}
+	max := len(r.data) - r.pos
+	if max > len(p) {
+		max = len(p)
+	}
+	n := nondetInt("chunk")
+	assume(n >= 1 && n <= max)
+	copy(p, r.data[r.pos:r.pos+n])
+	r.pos += n
+	if r.pos == len(r.data) && r.eofWithLast {
+		return n, errEOF()
+	}
+	return n, nil
+}
+
+// wholeReader delivers as much as fits per Read; EOF separately.
+type wholeReader struct {
+	data []byte
+	pos  int
+}
+
+func (r *wholeReader) Read(p []byte) (int, error) {
+	if r.pos >= len(r.data) {
+		return 0, errEOF()
+	}
+	n := copy(p, r.data[r.pos:])
+	r.pos += n
+	return n, nil
+}
+
+// byteSink collects written bytes; the failAt-th Write call (1-based) fails.
+type byteSink struct {
+	b      []byte
+	writes int
+	failAt int
+	err    error
+}
+
+func (s *byteSink) Write(p []byte) (int, error) {
+	s.writes++
+	if s.failAt != 0 && s.writes >= s.failAt {
+		return 0, s.err
+	}
+	s.b = append(s.b, p...)
+	return len(p), nil
+}
+
+var errOpaqueTransport = errors.New("transport: connection reset")
+
+// faultReader delivers data[:cut] (in one piece) and then fails with the
+// chosen terminal condition: 0 = io.EOF, 1 = io.ErrUnexpectedEOF, 2 = an
+// opaque transport error.
+type faultReader struct {
+	data   []byte
+	cut    int
+	kind   int
+	pos    int
+	closed int
+}
+
+func (r *faultReader) terminal() error {
+	switch r.kind {
+	case 0:
+		return io.EOF
+	case 1:
+		return io.ErrUnexpectedEOF
+	}
+	return errOpaqueTransport
+}
+
+func (r *faultReader) Read(p []byte) (int, error) {
+	if r.pos >= r.cut {
+		return 0, r.terminal()
+	}
+	n := copy(p, r.data[r.pos:r.cut])
+	r.pos += n
+	return n, nil
+}
+
+func (r *faultReader) Close() error {
+	r.closed++
+	return nil
+}
+
+// ---- JSON stubs (symbolic side only) -----------------------------------------
+// encoding/json is reflection-driven and not encoded.  On the symbolic side
+// the two entry points connect-go uses are replaced by a codec that is exact
+// on the domain the harnesses produce: an end-of-stream message without error
+// and without metadata is "{}" - byte-identical to what the real encoder
+// emits - and anything else is reported as undecodable/unsupported.
+
+//verif:stub encoding/json.Marshal@json
+func stubJSONMarshal(v any) ([]byte, error) {
+	switch m := v.(type) {
+	case *connectEndStreamMessage:
+		if m.Error == nil && len(m.Trailer) == 0 {
+			return []byte("{}"), nil
+		}
+	}
+	return nil, errors.New("json stub: value outside the modelled domain")
+}
+
+//verif:stub encoding/json.Unmarshal@json
+func stubJSONUnmarshal(data []byte, v any) error {
+	switch v.(type) {
+	case *connectEndStreamMessage:
+		if string(data) == "{}" {
+			return nil
+		}
+	}
+	return errors.New("json stub: input outside the modelled domain")
+}
+
+func closedChan() chan struct{} {
+	c := make(chan struct{})
+	close(c)
+	return c
 }
